@@ -163,6 +163,18 @@ def run(R):
         s, c = render(e, 'sugar'), render(e, 'ctor')
         nested_choice = any(x[0] == 'alt' and any(isinstance(y, tuple) and y[0] == 'alt' for y in x[1:]) for x in walk(e))
         add_group('sugar-vs-constructor', [f'start = {s}\nX = "a" | "ba"\n', f'start = {c}\nX = "a" | "ba"\n'], structural=not nested_choice)
+    # every form of literal bounds, one- and several-digit values, valid and invalid pairs (both spellings must be
+    # accepted or rejected alike and then count alike)
+    vals = [None, 0, 1, 2, 3, 9, 10, 11, 12, 100]
+    runs = ['a' * k for k in range(0, 14)] + ['a' * 99, 'a' * 100, 'a' * 101, 'aab', 'b']
+    for lo in vals:
+        for hi in vals:
+            if (lo, hi) == (None, None):
+                continue
+            for elem in ([('lit', 'a')] if quick else [('lit', 'a'), ('rx', '[ab]'), ('ref', 'X')]):
+                e = ('rep', elem, lo, hi)
+                add_group('sugar-vs-constructor', [f'start = {render(e, "sugar")}\nX = "a" | "ba"\n',
+                                                   f'start = {render(e, "ctor")}\nX = "a" | "ba"\n'], texts=runs)
     for e in terms(rnd, 60 if quick else 1000):
         if not G.well_formed(e, G.RULES_NULLABLE):
             continue
